@@ -265,10 +265,15 @@ def bool_expr(draw, env, depth=2, last_ok=False):
 def condition(draw, env, last_ok=False):
     if env.cfg.const_conditions and draw(st.integers(0, 9)) < env.cfg.const_conditions:
         # decided at compile time if the compiler folds it: the folded value must be C's (truncating division, sign of the dividend)
-        a = draw(st.sampled_from([-7, -1, 7, -9, 9, 100, -100]))
-        b = draw(st.sampled_from([2, 3, -2, 4, -4]))
-        op2 = draw(st.sampled_from(["/", "/", "%", "%", "*", "-"]))
-        v = draw(st.sampled_from([-4, -3, -2, -1, 0, 1, 2, 3]))
+        a = draw(st.sampled_from([-7, -1, -7, -9, 9, 7, -100]))
+        b = draw(st.sampled_from([2, 3, -2, 4, -4, 2]))
+        op2 = draw(st.sampled_from(["/", "/", "%", "%", "/", "%", "*", "-"]))
+        if op2 in ("/", "%"):
+            q = abs(a) // abs(b) * (1 if (a < 0) == (b < 0) else -1)      # C: truncation towards zero, remainder has the sign of the dividend
+            cval = q if op2 == "/" else a - q * b
+        else:
+            cval = a * b if op2 == "*" else a - b
+        v = cval if draw(st.integers(0, 3)) > 0 else draw(st.sampled_from([-4, -3, -2, -1, 0, 1, 2, 3]))
         return ("bin", draw(st.sampled_from(["==", "!=", "<", ">=", "==", "=="])), ("bin", op2, ("num", a, "dec"), ("num", b, "dec")), ("num", v, "dec"))
     if draw(st.integers(0, 4)) == 0 and env.ints:
         return ("var", draw(st.sampled_from(env.ints))[1])      # integer used as condition
@@ -860,4 +865,27 @@ def yield_overflow_program(draw):
     for w in (word, word[:cap] + off + b"xy", word[:cap] + b"Q"):
         for t in (b".", b"-.", b"!.", b",", b"xy.", b""):
             datas.append(w + t + (word + b"," + word if in_loop else b""))
+    return prog, datas
+
+
+# ------------------------------------------------------------------------------------------------ focused family: branches chosen by constant expressions
+
+@st.composite
+def const_branch_program(draw):
+    """<lead>; if <constant comparison> { <match>; h0(); } [elif <constant comparison> { ... }] else { <match>; } <tail>: which branch exists at all is
+    decided by the compiler's own arithmetic wherever it folds constants; it must be C's arithmetic. Returns (program, inputs)."""
+    from . import ir as _ir
+    cfg = GenConfig(const_conditions=10)
+    env = type("E", (), {"cfg": cfg, "ints": [], "bools": [], "bufs": []})()
+    nb = draw(st.integers(1, 2))
+    letters = [b"b", b"c", b"d"]
+    branches = tuple((draw(condition(env)), (("match", ("lit", letters[j], "str")), ("hook", "h0"), ("assign", "n0", ("num", j + 1, "dec")))) for j in range(nb))
+    else_body = (("match", ("lit", b"e", "str")), ("assign", "n0", ("num", 9, "dec"))) if draw(st.booleans()) else None
+    lead = draw(st.sampled_from([(("match", ("lit", b"a", "str")),), (), (("match", ("lit", b"a", "str")), ("hook", "h0"))]))
+    stmt = ("if", branches, else_body)
+    if draw(st.integers(0, 2)) == 0:
+        stmt = ("loop", None, (stmt, ("match", ("lit", b",", "str"))))
+    body = lead + (stmt, ("match", ("lit", b";", "str")))
+    prog = _ir.Program([("int", "n0", True, None, 0)], ["h0"], [], [], [], body, [draw(st.sampled_from(OPT_LEVELS))])
+    datas = [b"a" + x + t for x in (b"b", b"c", b"d", b"e", b"") for t in (b";", b",b;", b",e;")] + [x + b";" for x in (b"b", b"c", b"e")]
     return prog, datas
